@@ -124,6 +124,23 @@ theorem C10_parse_options_no_fault (p : Array UInt8) (base len : Nat) (hb : base
 example : ∃ r, parseOptionsLoop (Sock.init 0) #[0, 3, 1, 200, 254, 1, 0] 1 6 0 false false = .ok r :=
   C10_parse_options_no_fault _ 1 6 (by decide) 0 _ _ _
 
+/-- **only a well-formed window-scale option changes the peer's scale factor**: every other option kind (the unsupported
+    MSS option included, whatever its length) and a window-scale option of the wrong length leave `swnd_scale` as it was. -/
+theorem C10_only_window_scale_option_sets_scale (s s' : Sock) (kind : UInt8) (p : Array UInt8) (off len : Nat)
+    (h : applyOption s kind p off len = .ok s') (hk : kind.toNat ≠ TCP_OPT_WND_SCALE ∨ len ≠ 1) :
+    s'.swnd_scale = s.swnd_scale := by
+  unfold applyOption at h
+  split at h
+  · cases h; rfl
+  · split at h
+    · rename_i hws
+      split at h
+      · cases h; rfl
+      · rename_i hl; rcases hk with hk | hk
+        · exact absurd hws hk
+        · exact absurd (by simpa using hl) hk
+    · split at h <;> (cases h; rfl)
+
 /-! ### window scale: the shifts are always defined -/
 
 /-- **C10_shift_no_fault.**  With a scale factor of at most 14 the C expression `seg->wnd << swnd_scale` (an `int`
